@@ -2396,12 +2396,17 @@ func (p *Posix) UploadPart(ctx context.Context, input *s3.UploadPartInput) (*s3.
 		}
 	}
 
-	_, err = io.Copy(f, tr)
+	copied, err := io.Copy(f, tr)
 	if err != nil {
 		if errors.Is(err, syscall.EDQUOT) {
 			return nil, s3err.GetAPIError(s3err.ErrQuotaExceeded)
 		}
 		return nil, fmt.Errorf("write part data: %w", err)
+	}
+	// the temp file was sized from the announced length: a body that
+	// ended early must not be committed (zero padded) as a complete part
+	if length > 0 && copied != length {
+		return nil, s3err.GetAPIError(s3err.ErrIncompleteBody)
 	}
 
 	dataSum := hash.Sum(nil)
@@ -2838,12 +2843,17 @@ func (p *Posix) PutObject(ctx context.Context, po s3response.PutObjectInput) (s3
 		rdr = hashRdr
 	}
 
-	_, err = io.Copy(f, rdr)
+	copied, err := io.Copy(f, rdr)
 	if err != nil {
 		if errors.Is(err, syscall.EDQUOT) {
 			return s3response.PutObjectOutput{}, s3err.GetAPIError(s3err.ErrQuotaExceeded)
 		}
 		return s3response.PutObjectOutput{}, fmt.Errorf("write object data: %w", err)
+	}
+	// the temp file was sized from the announced length: a body that
+	// ended early must not be committed (zero padded) as a complete object
+	if contentLength > 0 && copied != contentLength {
+		return s3response.PutObjectOutput{}, s3err.GetAPIError(s3err.ErrIncompleteBody)
 	}
 
 	dir := filepath.Dir(name)
